@@ -260,3 +260,40 @@ Section SkelAR13.
 End SkelAR13.
 Print Assumptions C13_code_arguments_shallow_copy.
 Print Assumptions C13_code_arguments_deep_copy.
+
+(* ---- the PROPERTY GETTERS AS TRANSLATED (Gen/G_cp_size.v, G_cp_members.v, G_st_labels.v; facts: Proofs/GenEquivRM.v): labels and members are
+   the stored private fields themselves (no copy: whoever reads them holds the state's own lists), size is len(members) or 0 ---- *)
+From Ticc Require Import Gen.PySkel Gen.G_cp_size Gen.G_cp_members Gen.G_st_labels Proofs.GenEquivRM.
+Section SkelRM13.
+  Local Open Scope string_scope.
+  Variable V : Type.
+  Variable vnone : V.
+  Variable vint : Z -> V.
+  Variable as_int : V -> option Z.
+  Variable veq : V -> V -> bool.
+  Variable getattr : V -> string -> V.
+  Variable truthy : V -> bool.
+  Variable is_none : V -> bool.
+  Variables vtrue vfalse : V.
+  Variable as_list : V -> list V.
+  Variable vglobal : string -> V.
+  Variable oracle : list (event V) -> string -> list V -> res V.
+  Theorem C13_code_size_getter (self r : V) (log log' : list (event V)) :
+    g_ClusterParameters_size_getter V vint getattr is_none oracle self log = (Ret r, log') ->
+    if is_none (getattr self "member_points")
+    then log' = log /\ r = vint 0
+    else log' = (log ++ [Ev "len" [getattr self "member_points"]])%list /\
+         oracle log "len" [getattr self "member_points"] = Ret r.
+  Proof. intros; eapply size_getter_returns; eassumption. Qed.
+  Theorem C13_code_members_getter (self r : V) (log log' : list (event V)) :
+    g_ClusterParameters_member_points_getter V getattr self log = (Ret r, log') ->
+    log' = log /\ r = getattr self "_member_points".
+  Proof. intros; eapply members_getter_returns; eassumption. Qed.
+  Theorem C13_code_labels_getter (self r : V) (log log' : list (event V)) :
+    g_ModelState_point_labels_getter V getattr self log = (Ret r, log') ->
+    log' = log /\ r = getattr self "_point_labels".
+  Proof. intros; eapply labels_getter_returns; eassumption. Qed.
+End SkelRM13.
+Print Assumptions C13_code_size_getter.
+Print Assumptions C13_code_members_getter.
+Print Assumptions C13_code_labels_getter.
